@@ -290,4 +290,3 @@ func xmlspecClass(c Case, out []int64) string {
 }
 
 var xmlspecModel = &Model{Name: "xmlspec", Gen: xmlspecGen, Impl: xmlspecImpl, Shrink: xmlspecShrink, Class: xmlspecClass}
-
